@@ -152,6 +152,31 @@ def handmade(pv):
     return out
 
 
+def par_filter(ctx, cases):
+    """ctx.coq_filter with every case as its own Definition (coqc elaborates one big list literal ~8x slower), one coqc
+    per shard, shards in parallel (each through core's coq_filter on a private scratch directory)."""
+    import copy
+    from concurrent.futures import ThreadPoolExecutor
+    if not cases:
+        return []
+    n = max(1, min(core.JOBS, (len(cases) + 39) // 40))
+    size = (len(cases) + n - 1) // n
+    shards = [(k, cases[k:k + size]) for k in range(0, len(cases), size)]
+
+    def work(args):
+        k, sc = args
+        c = copy.copy(ctx)
+        c.scratch = os.path.join(ctx.scratch, 'shard%d' % k)
+        os.makedirs(c.scratch, exist_ok=True)
+        prelude = '\n'.join('Definition c%d_ := %s.' % (i, t) for i, t in enumerate(sc))
+        bad = c.coq_filter(REQ, '(fun z : Z => z =? 0)', ['c%d_' % i for i in range(len(sc))], shard=len(sc) + 1, prelude=prelude)
+        return [k + i for i in bad]
+    ctx.trust('correspondence harness: generated cases.v evaluated with vm_compute by coqc')
+    with ThreadPoolExecutor(max_workers=core.JOBS) as ex:
+        res = list(ex.map(work, shards))
+    return sorted(i for r in res for i in r)
+
+
 def run(ctx):
     ok = ctx.prove('Props/C04.v')
     if ctx.tier == 'thorough' and ok:
@@ -172,15 +197,19 @@ def run(ctx):
     wf_cases = []
 
     def coq_case_wf(pv, rm, stream, r, gapkey, flags, opcode, body, expected, docx, impl, implx):
+        pool = {}
+        gl = lambda t: S.gal(t, pool)
         it = None if impl is None else ('Some', impl)
         shared = impl == expected
-        parts = ['chk %d %s %s %s %s %d %d %s' % (pv, S.gal(rm), S.gal(stream), S.gal(r), 'true' if gapkey else 'false', flags, opcode, S.gal(bytes(body)))]
-        parts.append('e_' if shared else S.gal(expected))
-        parts.append(S.gal(None if docx is None else ('Some', docx)))
-        parts.append('(Some e_)' if shared else S.gal(it))
-        parts.append(S.gal(None if implx is None else ('Some', implx)))
+        parts = ['chk %d %s %s %s %s %d %d %s' % (pv, gl(rm), gl(stream), gl(r), 'true' if gapkey else 'false', flags, opcode, gl(bytes(body)))]
+        parts.append('e_' if shared else gl(expected))
+        parts.append(gl(None if docx is None else ('Some', docx)))
+        parts.append('(Some e_)' if shared else gl(it))
+        parts.append(gl(None if implx is None else ('Some', implx)))
         s = ' '.join(parts)
-        return '(let e_ := %s in %s)' % (S.gal(expected), s) if shared else '(%s)' % s
+        if shared:
+            s = 'let e_ := %s in %s' % (gl(expected), s)
+        return S.with_pool(pool, s)
 
     def one_wf(pv, name, body, rm, combo):
         trace, warnings, payload = g.extras(combo)
@@ -231,8 +260,9 @@ def run(ctx):
             # accepted garbage the message type cannot express (e.g. a non-ASCII schema target): outside the model
             ctx.count('malformed', 'uncanonical-skipped')
             return
-        cases.append('(chk_raw %d %s %s %d %d %s %s)' % (pv, S.gal(rm), S.gal(stream), flags, opcode, S.gal(bytes(bts)),
-                                                      S.gal(None if impl is None else ('Some', impl))))
+        pool = {}
+        cases.append(S.with_pool(pool, 'chk_raw %d %s %s %d %d %s %s' % (pv, S.gal(rm, pool), S.gal(stream), flags, opcode, S.gal(bytes(bts), pool),
+                                                                         S.gal(None if impl is None else ('Some', impl), pool))))
         meta.append(('raw', name, case, impl, None))
 
     for pv in G.VERSIONS:
@@ -261,7 +291,7 @@ def run(ctx):
                 'non-trivial = non-empty body' % ('2 random' if quick else 'all 8'))
     # ---- model vs implementation (and validation of the Python twins), inside Coq
     try:
-        bad = ctx.coq_filter(REQ, '(fun z : Z => z =? 0)', cases, shard=150)
+        bad = par_filter(ctx, cases)
     except RuntimeError as e:
         ctx.proof_broken.append(('correspondence:Response', str(e)[-900:]))
         ctx.extra['coq_error'] = str(e)[-2500:]
